@@ -200,7 +200,7 @@ def run(ctx):
     #    Executor against the direct interpreter
     nD = 1500 if ctx.thorough else 250
     for _ in range(nD):
-        op = H.completed_op(rng, depth=rng.choice([2, 3, 4]))
+        op = H.completed_op(rng, depth=rng.choice([2, 3, 4]), h0=0)
         prog = base + [op, {"k": "flush"}]
         outs = [rng.randrange(2) for _ in range(64)]
         res.evaluations += 1
